@@ -59,6 +59,7 @@ type c16Extra struct {
 	C11Upgrade bool   `json:"c11_upgrade,omitempty"` // the trace belongs to C11's upgrade sub-profile
 	C17Upgrade bool   `json:"c17_upgrade,omitempty"` // ... to C17's upgrade sub-profile
 	C05Upgrade bool   `json:"c05_upgrade,omitempty"` // ... to C05's upgrade sub-profile
+	ForProp    string `json:"for_prop,omitempty"`    // ... to the upgrade sub-profile of this property (C02, C10, C13)
 	// ZeroExpAmount: the legacy minter parameters carry their exponential periods with amount 0 (valid in the previous format)
 	ZeroExpAmount bool `json:"zero_exp_amount,omitempty"`
 }
@@ -481,6 +482,27 @@ func c16Replay(tr *kernel.Trace) *Outcome {
 	b1 := tr.Blocks[1]
 	run.ExecBlock(&b1, nil)
 	run.BlockIdx++
+	// C13 across the upgrade: the stored minter parameters still contain the minter's current period (read from the
+	// stores, so it is decided also when the block went on to halt)
+	if pi := kernel.Catch("minter state after upgrade", func() {
+		mp := run.Chain.MinterParams()
+		st := run.Chain.App.CfeminterKeeper.GetMinterState(run.Chain.Ctx())
+		if len(mp.Minters) > 0 {
+			found := false
+			for _, m := range mp.Minters {
+				if m != nil && m.SequenceId == st.SequenceId {
+					found = true
+				}
+			}
+			o.Evals++
+			if !found {
+				o.Violations = append(o.Violations, &kernel.Violation{Property: "C13", Check: "stored-valid", Signature: "current-period-missing-after-upgrade", Block: 1, TxIndex: -1,
+					Message: fmt.Sprintf("after the upgrade the minter's current period %d is not in the stored configuration", st.SequenceId)})
+			}
+		}
+	}); pi != nil {
+		_ = pi // an unreadable store shows up as a halt below
+	}
 	if run.Chain.Halted != nil {
 		pi := run.Chain.Halted
 		violate("upgrade-runs", "upgrade-block-halted:"+pi.Site(), "the upgrade block halted the chain: %s", firstLineOf(pi.Value))
@@ -514,6 +536,17 @@ func c16Replay(tr *kernel.Trace) *Outcome {
 	}
 	for _, h := range run.AppHashes {
 		o.Hashes = append(o.Hashes, fmt.Sprintf("%x", h))
+	}
+	// the hard-coded owner's pools after the run, by name (for the pool-order twin of C17)
+	if run.Chain.Halted == nil {
+		o.Aux = map[string]string{}
+		if avp, found := run.Chain.App.CfevestingKeeper.GetAccountVestingPools(run.Chain.Ctx(), v120.ValidatorsVestingPoolOwner); found {
+			seen := map[string]int{}
+			for _, p := range avp.VestingPools {
+				seen[p.Name]++
+				o.Aux[fmt.Sprintf("%s#%d", p.Name, seen[p.Name])] = fmt.Sprintf("genesis=%v type=%s init=%s sent=%s withdrawn=%s lock_end=%d", p.GenesisPool, p.VestingType, p.InitiallyLocked, p.Sent, p.Withdrawn, p.LockEnd.Unix())
+			}
+		}
 	}
 	o.Violations = append(o.Violations, run.Violations...)
 	o.Nontrivial = s0 != nil && len(s0.pools) > 0
